@@ -7,6 +7,11 @@ complete point alphabet (scaled basis points + generic points inside the support
 integer-valued points inside / outside the support, each handed over in every representation of an array_like
 evaluation point: float64 array, int64 array, list of python ints, float32 array, python int / float for a
 one-component variable).
+Composite objects (Posterior, MultipleLikelihoodPosterior, stacked joint) are built over the member alphabet of the
+library: Likelihood from a distribution (every forward-model kind), UserDefinedLikelihood with / without gradient_func,
+evaluated densities (constants), several members of different kinds mixed.
+Every object whose support has finite bounds is additionally evaluated at points exactly ON those bounds (all faces,
+corners of the box), judged by the object's own logd (finite there: one-sided derivative; -inf there: not finite).
 Oracle: gradient() raises, or returns an array with as many entries as the evaluated variable that equals the
 Richardson-extrapolated central difference of the *same object's* logd; outside the support: not finite.
 Failing variants of a cell are coalesced into narrow signatures (only the facets that discriminate failing
@@ -30,14 +35,33 @@ RULE = ("cells = family x size x FD option (full product inside the bound); ever
         "(not under the FD option) and, for one-component variables, python int and python float - for every object "
         "of every family (plain, MRF, conditional, all composites), crossed with all option facets and FD off/on; the "
         "reference is always the Richardson derivative of the object's logd at the float64 version of the same point; "
+        "facet 'member alphabet of composite objects': a Posterior is built on a Likelihood from a distribution (directly, via a "
+        "joint, via a joint that also carries an evaluated density) or on a UserDefinedLikelihood (with gradient_func and geometry "
+        "none/default/given, without gradient_func); a MultipleLikelihoodPosterior on 2..3 members taken from {Likelihood through "
+        "each forward-model kind, UserDefinedLikelihood with / without gradient_func} in mixed orders (user-defined member first / "
+        "middle / last / twice / only user-defined ones) x {no constant, evaluated density} x {built directly, reduced from a joint}; "
+        "a stacked joint on two distributions plus {nothing, a Likelihood, a UserDefinedLikelihood, both, an evaluated density} - "
+        "oracle unchanged (raises, or the derivative of the SAME object's logd); "
+        "facet 'points exactly on a finite bound of the support': for every object whose support is a box with finite bounds "
+        "(Beta, InverseGamma, ModifiedHalfNormal, Gamma, Lognormal, Uniform and every composite with such a prior / member) every "
+        "face (one coordinate on its lower / upper bound, the others strictly inside) and the corners (all 2^m for m <= 3 bounded "
+        "coordinates, else all-lower, all-upper and the two alternating patterns) are evaluated, FD off and on, and judged by "
+        "the object's own logd: -inf/+inf at the point -> gradient raises or has a non-finite entry; finite at the point -> "
+        "gradient raises, or entry i equals the Richardson derivative of logd along axis i taken from a side on which logd is "
+        "finite (one-sided three-point differences at the bound, central elsewhere, either one-sided value at a kink) or is the "
+        "signed infinity of the one-sided derivative taken across the bound; "
         "a cell is non-trivial when at least one gradient vector was returned and compared (not only refusals)")
 BOUND = {
     "quick": "plain families dim 1..3, MRFs 1-D N=2..4 and 2-D 2x2/3x3, composites with parameter dim 3..4 (range dim 4..5, images 3x1 and 2x2; Lognormal-noise model/geometry product at dim 3 only); "
              "FD option off/on (epsilon 1e-8); 1 generic point + all scaled basis points; integer-valued points: 1 inside "
              "(2 for the scalar-parameter families and UserDefined/gallery) + up to 5 outside, each in 4 representations "
-             "(6 at dim 1; float32 dropped under FD); 1 of 3 value catalogues",
+             "(6 at dim 1; float32 dropped under FD); composites: 14 priors x (18 Likelihood combos + 2 joint+evaluated + 4 user-defined "
+             "likelihood combos) Posteriors, 6 priors x 11 member lists x 2 x 2 MultipleLikelihoodPosteriors, 3 x 5 stacked joints; "
+             "boundary points: all 2*dim faces + all corners (dim <= 3) or 4 corner patterns (dim 4), float64 only; 1 of 3 value catalogues",
     "thorough": "plain families dim 1..6, MRFs 1-D N=2..7 and 2-D 2x2..4x4, composites parameter dim 2..6 (images up to 2x3); "
                 "3 generic points + basis; 3 integer-valued inside points + up to 5 outside in every representation; FD off/on; "
+                "same member alphabet of the composites and boundary points (all faces; all corners up to 3 bounded coordinates, 4 corner "
+                "patterns above) as in the quick tier; "
                 "1 of 3 value catalogues per run (seed selects)",
 }
 ASSUMPTIONS = [
@@ -54,8 +78,18 @@ ASSUMPTIONS = [
     "where the object's own logd refuses at interior points (sparse Gaussian covariance/precision without cholmod: no "
     "normalised logd) the analytic gradient is compared with the Richardson derivative of the textbook quadratic form "
     "of the documented parameterisation (symmetric matrices only); the FD option is skipped there",
-    "kinked densities (Laplace, LMRF, donut/CalSom91 at the origin) and support boundaries are evaluated only at "
-    "catalogue points at distance >= 1/32 from the kink/boundary",
+    "kinked densities (Laplace, LMRF, donut/CalSom91 at the origin) are evaluated only at catalogue points at distance >= 1/32 "
+    "from the kink; supports are evaluated at distance >= 1/8 from their bounds and exactly ON the bounds (faces, corners), not "
+    "at intermediate distances (e.g. one ulp inside)",
+    "points on a bound: whether the bound belongs to the support is not assumed but read off the object's own logd at the point "
+    "(finite / infinite); logd NaN or raising there: skipped and counted; where logd is finite at the point the one-sided "
+    "reference needs logd finite at distance 1e-3 and 2e-3 on that side (the catalogue boxes are >= 1 wide); a signed infinity "
+    "(+inf at a lower, -inf at an upper bound - what a difference quotient across the bound gives, e.g. under the FD option) is "
+    "accepted in the entries whose axis leaves the support, NaN is not (NaN is the report for 'outside the support' while logd "
+    "says the point is inside); boundary points are handed over as float64 arrays only (no representation facet there)",
+    "user-defined members: the harness' UserDefinedLikelihood is smooth on R^n (sum of log(1+(x-c)^2) terms) with an exact "
+    "gradient_func; it has no FD option (not a Density), so under the FD option only the other members switch; joints refuse to "
+    "condition when a UserDefinedLikelihood is a member (not callable): those variants are construction refusals",
     "user-supplied pieces (model Jacobians, geometry.gradient, PDE gradients, UserDefined gradient_func) are correct "
     "by construction in the harness; only the library's wiring/chain rule around them is under test",
     "outside the support: any result with at least one non-finite entry, or a refusal, is accepted",
